@@ -174,6 +174,7 @@ type case_state = {
   mutable st : store sstate;
   mutable edtable : (string, bool) Hashtbl.t;
   mutable exp : z;
+  mutable store_fail : bool;
   mutable active : bool;
 }
 
@@ -209,7 +210,8 @@ let () = reg "sbegin" (fun args _ ->
       let budget = if g "budget" = "inf" then None else Some (n_of_dec (g "budget")) in
       let st = srv_init (z_of_dec (g "now")) (parse_ranges (g "bl")) budget in
       let exp = (try z_of_dec (g "exp") with Not_found -> z_of_dec "7200000000000") in
-      cs := Some { cfg; st; edtable = Hashtbl.create 16; exp; active = true };
+      let store_fail = (try g "storefail" = "1" with Not_found -> false) in
+      cs := Some { cfg; st; edtable = Hashtbl.create 16; exp; store_fail; active = true };
       "ok"
     | _ -> "SKIP")
 
@@ -331,7 +333,7 @@ let run_event (ev : event) (obs : string list) : string =
     let obs_tbl = List.filter_map parse_obs_node ot in
     let ch = choice_of c oe obs_tbl in
     let missed = ref false in
-    (match srv_step (edv_of c.edtable missed) c.exp c.cfg c.st ev ch with
+    (match srv_step (edv_of c.edtable missed) c.exp c.store_fail c.cfg c.st ev ch with
      | SR (s', out) ->
        c.st <- s';
        if !missed then "REJECT edtable-miss" else print_state c (eff_toks out) obs_tbl
